@@ -11,7 +11,7 @@ pub struct KademliaRoutingTable { pub buckets: Vec<KBucket>, pub node_id: NodeId
 /// Error values: the text of `anyhow!(..)` messages is dropped by the extraction.
 pub struct VerifError {}
 /// the engine that owns the routing table behind a tokio RwLock (only its critical sections are extracted)
-pub struct DhtCoreEngine { pub node_id: NodeId }
+pub struct DhtCoreEngine { pub node_id: NodeId, pub trust_peer_selector: Option<TrustAwarePeerSelector<EigenTrustEngine>> }
 pub type Result<T> = core::result::Result<T, VerifError>;
 
 // ASSUMED: the derived `PartialEq` of NodeId/DhtKey (newtypes over [u8; 32]) is equality of the bytes.
@@ -828,3 +828,51 @@ impl DhtCoreEngine {
 pub fn verif_contains_id(v: &Vec<NodeId>, x: &NodeId) -> (r: bool)
     ensures r == v@.contains(*x),
 { unimplemented!() }
+
+// ---------------------------------------------------------------------------------------------
+// DhtCoreEngine::select_query_peers / select_storage_peers (await-erased): the choice with trust selection off
+// ---------------------------------------------------------------------------------------------
+/// dht::trust_peer_selector::TrustAwarePeerSelector<EigenTrustEngine>: opaque here (its own contracts are in unit
+/// `select`); EigenTrustEngine opaque
+#[verifier::external_body] pub struct EigenTrustEngine { _p: u8 }
+#[verifier::external_body]
+#[verifier::reject_recursive_types(T)]
+pub struct TrustAwarePeerSelector<T> { _p: core::marker::PhantomData<T> }
+impl<T> TrustAwarePeerSelector<T> {
+    #[verifier::external_body]
+    pub fn select_peers(&self, key: &DhtKey, candidates: &[NodeInfo], count: usize) -> Vec<NodeInfo> { unimplemented!() }
+    #[verifier::external_body]
+    pub fn select_storage_peers(&self, key: &DhtKey, candidates: &[NodeInfo], count: usize) -> Vec<NodeInfo> { unimplemented!() }
+}
+/// `v.into_iter().take(n).collect()`: the first min(n, len) elements in order
+#[verifier::external_body]
+pub fn verif_take_prefix(v: Vec<NodeInfo>, n: usize) -> (r: Vec<NodeInfo>)
+    ensures r@ == v@.take(if n <= v@.len() { n as int } else { v@.len() as int }),
+{ unimplemented!() }
+/// the first n of the m >= n closest entries are the n closest entries
+pub proof fn lemma_prefix_of_closest(t: &KademliaRoutingTable, key: &DhtKey, m: usize, n: usize, c: Seq<NodeInfo>)
+    requires fcn_post(t, key, m, c), n <= m,
+    ensures fcn_post(t, key, n, c.take(if n <= c.len() { n as int } else { c.len() as int })),
+{
+    let k = if n <= c.len() { n as int } else { c.len() as int };
+    let r = c.take(k);
+    assert forall|q: NodeId| #[trigger] t.lists(q) && !(exists|i: int| 0 <= i < r.len() && (#[trigger] r[i]).id == q) implies
+            r.len() == n && forall|i: int| 0 <= i < r.len() ==> lex_lt(dist((#[trigger] r[i]).id, key), dist(q, key)) by {
+        if exists|j: int| 0 <= j < c.len() && (#[trigger] c[j]).id == q {
+            let j = choose|j: int| 0 <= j < c.len() && (#[trigger] c[j]).id == q;
+            if j < k { assert(r[j].id == q); assert(false); }
+            assert(k == n);
+            assert forall|i: int| 0 <= i < r.len() implies lex_lt(dist((#[trigger] r[i]).id, key), dist(q, key)) by {
+                assert(r[i] == c[i]);
+                assert(lex_lt(dist(c[i].id, key), dist(c[j].id, key)));
+            }
+        } else {
+            assert(c.len() == m);
+            assert forall|i: int| 0 <= i < r.len() implies lex_lt(dist((#[trigger] r[i]).id, key), dist(q, key)) by {
+                assert(r[i] == c[i]);
+            }
+        }
+    }
+    assert forall|i: int| 0 <= i < r.len() implies t.lists((#[trigger] r[i]).id) by { assert(r[i] == c[i]); }
+    assert forall|i: int, j: int| 0 <= i < j < r.len() implies lex_lt(dist((#[trigger] r[i]).id, key), dist((#[trigger] r[j]).id, key)) by { assert(r[i] == c[i] && r[j] == c[j]); }
+}
